@@ -81,6 +81,17 @@ func init() {
 				}})
 		}
 	}
+	// one worker is a worker count too: the pipelined scan with a single slab goroutine against the run with three
+	for _, n := range [][3]int{{2, 2, 2}, {2, 2, 3}} {
+		n := n
+		run := func() string {
+			return meshq.FaceMultiset3(model3d.MarchingCubes(pattern3(n), 1).TriangleSlice(), false)
+		}
+		for _, prop := range []string{"C12", "C13"} {
+			register(scenario{name: fmt.Sprintf("mc-scan-one-worker/%s/%dx%dx%d", prop, n[0], n[1], n[2]), procs: 1, prop: prop,
+				about: "squareSpacer.Scan with exactly one worker", body: run, want: func() string { return withProcs(3, run) }})
+		}
+	}
 	for _, procs := range []int{2, 3} {
 		for _, n := range [][3]int{{2, 2, 2}, {2, 2, 3}} {
 			n := n
